@@ -601,7 +601,7 @@ func c5same(got, want val.Value) bool {
 
 // ---- write paths ----------------------------------------------------------------------------
 
-var c5pathNames = []string{"UpsertFrom(JSON)", "SetValue(native)", "Set(val.Value)", "UpsertFrom(XML)", "UpsertFrom(reflect node)", "UpdateFrom(JSON)", "InsertFrom(JSON quoted numbers)"}
+var c5pathNames = []string{"UpsertFrom(JSON)", "SetValue(native)", "Set(val.Value)", "UpsertFrom(XML)", "UpsertFrom(reflect node)", "UpdateFrom(JSON)", "InsertFrom(JSON quoted numbers)", "SetValue(val.Value)"}
 
 // returns applicable=false when the path cannot express the value
 func c5write(path int, t *c5type, m *meta.Module, b *node.Browser, v c5value) (applicable bool, err error) {
@@ -636,6 +636,19 @@ func c5write(path int, t *c5type, m *meta.Module, b *node.Browser, v c5value) (a
 			return false, nil
 		}
 		return true, sel.Set(w)
+	case 7:
+		// SetValue handed a value that already is a val.Value of the leaf's format (a value obtained
+		// with GetValue from another leaf, or built by the caller): NewValue converts it again
+		lm := meta.Find(m, id).(meta.Leafable)
+		w := c5typed(t, lm.Type(), v)
+		if w == nil {
+			return false, nil
+		}
+		sel, e := b.Root().Find(id)
+		if e != nil || sel == nil {
+			return false, nil
+		}
+		return true, sel.SetValue(w)
 	case 3:
 		x, ok := v.xml(id)
 		if !ok {
@@ -705,7 +718,7 @@ func c5observe(path int, t *c5type, m *meta.Module, pre *c5value, v c5value) (o 
 		got, _ = b.Root().GetValue(id)
 	}()
 	want := c5want(t, lm.Type(), v)
-	if path == 2 {
+	if path == 2 || path == 7 {
 		want = c5typed(t, lm.Type(), v)
 		// an undeclared enum / bits value cannot be read back through the library (the read
 		// converts again); look at what the map holds
@@ -1209,6 +1222,8 @@ func c5fixedTypes() []*c5type {
 		{base: "string", levels: ln(c5a("0", "2..3", "10..max"))},
 		{base: "string", levels: ln(c5a("3..5"), c5a("2..8"), c5a("min..10"))},
 		{base: "string", isList: true, levels: ln(c5a("1..2"))},
+		{base: "enumeration", enums: []c5enum{{"red", 0}, {"green", 5}, {"blue", 6}}, levels: make([]c5level, 2)},
+		{base: "bits", bits: []string{"up", "down"}, levels: make([]c5level, 1)},
 	}
 }
 
@@ -1633,7 +1648,10 @@ func c5runType(ctx *core.Ctx, tr *gen.Rng, t *c5type, m *meta.Module, y string, 
 			if len(accepted) > 0 && vi%2 == 1 {
 				for k := 0; k < len(accepted); k++ {
 					c := accepted[(vi+k)%len(accepted)]
-					if c.key() != v.key() {
+					// another value, also as stored ("b a" and "b  a" are one bits value)
+					lt := meta.Find(m, t.ident()).(meta.Leafable).Type()
+					wv := c5want(t, lt, v)
+					if c.key() != v.key() && (wv == nil || !c5same(c5want(t, lt, c), wv)) {
 						pre = &c
 						break
 					}
@@ -1652,12 +1670,15 @@ func c5runType(ctx *core.Ctx, tr *gen.Rng, t *c5type, m *meta.Module, y string, 
 			if len(row.obs) == 0 {
 				continue
 			}
-			var obsT, tobsT []string
+			var obsT, tobsT, sobsT []string
 			for _, o := range row.obs {
 				p := emit.Pair(emit.Z(int64(o.outcome)), emit.Z(int64(o.store)))
-				if o.path == 2 {
+				switch o.path {
+				case 2:
 					tobsT = append(tobsT, p)
-				} else {
+				case 7:
+					sobsT = append(sobsT, p)
+				default:
 					obsT = append(obsT, p)
 				}
 			}
@@ -1665,7 +1686,7 @@ func c5runType(ctx *core.Ctx, tr *gen.Rng, t *c5type, m *meta.Module, y string, 
 			if pre != nil {
 				preT = emit.Some(pre.term())
 			}
-			row.term = emit.App("Row", preT, v.term(), emit.List(obsT), emit.List(tobsT))
+			row.term = emit.App("Row", preT, v.term(), emit.List(obsT), emit.List(tobsT), emit.List(sobsT))
 			rows = append(rows, row)
 		}
 	}
@@ -1724,8 +1745,8 @@ func c5load(y string) (m *meta.Module, loadErr error) {
 }
 
 func C05(ctx *core.Ctx) error {
-	ctx.Imports = "Restrict.RangeParse Restrict.Model Restrict.Spec Check.C05Check"
-	ctx.Rule = "one case per generated leaf (leaf or leaf-list, typedef chain depth 0-3, restriction expressions printed from generated syntax; alone in its module, or one of 2-4 string leaves of one module whose pattern statements repeat the same generated expression with differing invert-match modifiers, own or shared typedefs); rows = candidate values (every bound and its neighbours, type extremes and one beyond, strings sampled from a generated expression and their mutations, random) x write paths " + strings.Join(c5pathNames, ", ") + "; distinct = by SHA-256 of the case term; non-trivial = the module loaded and at least one value was written, or the expression was invalid on purpose"
+	ctx.Imports = "Restrict.RangeParse Restrict.Model Restrict.Spec Restrict.Member Check.C05Check"
+	ctx.Rule = "one case per generated leaf (leaf or leaf-list, typedef chain depth 0-3, restriction expressions printed from generated syntax; alone in its module, or one of 2-4 string leaves of one module whose pattern statements repeat the same generated expression with differing invert-match modifiers, own or shared typedefs); rows = candidate values (every bound and its neighbours, type extremes and one beyond, strings sampled from a generated expression and their mutations, random) x write paths " + strings.Join(c5pathNames, ", ") + "; plus one case per generated leaf / leaf-list of enumeration or bits (innermost type of a typedef chain of depth 0-3 whose levels may restrict it to a subset) or identityref (3-7 identities, base statements forming a DAG), rows = declared / restricted-away / undeclared names and values, the base identity itself, lists of 0-3 of them x the same write paths, the typed paths handing over val.Enum / EnumList / Bits / BitsList / IdentRef / IdentRefList, and a list of one also as its single value (SetValue, JSON scalar); distinct = by SHA-256 of the case term; non-trivial = the module loaded and at least one value was written, or the expression was invalid on purpose"
 	r := gen.New(ctx.Seed)
 	nTypes := ctx.Scale(40, 600)
 	if ctx.Tier == "search" {
@@ -1785,5 +1806,7 @@ func C05(ctx *core.Ctx) error {
 			}
 		}
 	}
+	// enumeration / bits (restricted through typedef levels) / identityref, leaf and leaf-list
+	c5members(ctx, r.Fork(999))
 	return nil
 }
